@@ -190,6 +190,8 @@ PI = Sym('PI')
 def lift(x):
     if isinstance(x, Sym):
         return x
+    if hasattr(x, '_sym'):
+        return x._sym
     if isinstance(x, bool):
         raise TraceRefused('bool in arithmetic')
     if isinstance(x, (int, _np.integer)):
